@@ -112,6 +112,8 @@ RefParse(node, in, p, fe) ==
     [] node.k = "ptr" ->
          IF ParseAbsent(in) THEN
               (IF node.req THEN <<RIss(node, p, "not_nil", DType(node))>> ELSE <<>>)
+         \* the pointer itself asks the front-end document to decode: an undecodable one is reported here, nothing is allocated
+         ELSE IF in.t = "badjson" THEN <<Iss(p, "invalid_json", DType(node))>>
          ELSE RefParse(Elem(node), in, p, fe)
     \* C12: a Preprocess type mismatch or error becomes an issue and skips the wrapped schema
     [] node.k = "pre" ->
@@ -202,7 +204,7 @@ RefDestParse(node, in, dp, d, fe) ==
                     ELSE RefDestParse(Elem(node), src[i].val, Append(dp, Idx(i - 1)), E[i - 1], fe)
               IN E[n]
     [] node.k = "ptr" ->
-         IF ParseAbsent(in) THEN d
+         IF ParseAbsent(in) \/ in.t = "badjson" THEN d
          ELSE LET d1 == IF d[dp] = 0 THEN (dp :> 1) @@ ZeroDest(Elem(node), Append(dp, "*")) @@ d ELSE d
               IN RefDestParse(Elem(node), in, Append(dp, "*"), d1, fe)
     [] node.k = "pre" -> IF StrInput(in, node) /\ PreRuns(node) THEN RefDestParse(Elem(node), PreIn(node, in), dp, d, fe) ELSE d
@@ -314,7 +316,7 @@ CatchPathsP(node, in, p, fe) ==
          LET src == IF ParseAbsent(in) THEN (IF node.def = None THEN <<>> ELSE DefaultList(node).items)
                     ELSE IF in.t = "list" THEN in.items ELSE <<Ent("", in)>>
          IN UNION {CatchPathsP(Elem(node), src[i].val, Append(p, Idx(i - 1)), fe) : i \in DOMAIN src}
-    [] node.k = "ptr" -> IF ParseAbsent(in) THEN {} ELSE CatchPathsP(Elem(node), in, p, fe)
+    [] node.k = "ptr" -> IF ParseAbsent(in) \/ in.t = "badjson" THEN {} ELSE CatchPathsP(Elem(node), in, p, fe)
     [] node.k = "pre" -> IF StrInput(in, node) /\ PreRuns(node) THEN CatchPathsP(Elem(node), PreIn(node, in), p, fe) ELSE {}
     [] OTHER -> {}
 
